@@ -4,6 +4,7 @@ package masswallet
 
 import (
 	"github.com/massnetorg/mass-core/wire"
+	mwdb "massnet.org/mass-wallet/masswallet/db"
 	"massnet.org/mass-wallet/masswallet/keystore"
 )
 
@@ -37,4 +38,20 @@ func (w *WalletManager) SimMempoolSize() int {
 	h.memMtx.Lock()
 	defer h.memMtx.Unlock()
 	return len(h.mempool)
+}
+
+// SimSyncedTip returns height and hash of the block the wallet store is
+// synced to.
+func (w *WalletManager) SimSyncedTip() (uint64, wire.Hash, error) {
+	var height uint64
+	var hash wire.Hash
+	err := mwdb.View(w.db, func(tx mwdb.ReadTransaction) error {
+		bm, err := w.syncStore.SyncedTo(tx)
+		if err != nil {
+			return err
+		}
+		height, hash = bm.Height, bm.Hash
+		return nil
+	})
+	return height, hash, err
 }
